@@ -90,6 +90,8 @@ package x509
 //@   (requires chain (=> (bvsgt (len currentChain) 0) (not (isnil (at currentChain (bvsub (len currentChain) 1))))))
 //@   (modifies)
 //@   (ensures-internal window (=> (isnil result) (and (not (tbefore now (field c NotBefore))) (not (tafter now (field c NotAfter))))))
+//@   (ensures windowcfg (=> (and (isnil result) (not (time.iszero (field (field opts CurrentTime) wall) (field (field opts CurrentTime) ext))))
+//@                           (and (not (tbefore (field opts CurrentTime) (field c NotBefore))) (not (tafter (field opts CurrentTime) (field c NotAfter))))))
 //@   (ensures-internal clock (=> (and (isnil result) (not (time.iszero (field (field opts CurrentTime) wall) (field (field opts CurrentTime) ext))))
 //@                               (and (= (field now wall) (field (field opts CurrentTime) wall)) (= (field now ext) (field (field opts CurrentTime) ext)))))
 //@   (ensures names (=> (and (isnil result) (bvsgt (len (field c PermittedDNSDomains)) 0))
@@ -100,3 +102,66 @@ package x509
 //@   (ensures ca (=> (and (isnil result) (= certType 1)) (and (field c BasicConstraintsValid) (field c IsCA))))
 //@   (ensures pathlen (=> (and (isnil result) (field c BasicConstraintsValid) (bvsge (field c MaxPathLen) 0))
 //@                        (bvsle (bvsub (len currentChain) 1) (field c MaxPathLen)))))
+// CheckSignature's verdict is recorded in ghost state (which certificate's key, which signed bytes, which signature,
+// accepted or not); CheckSignatureFrom accepts only a parent that may act as a CA (RFC 5280 4.2.1.9, with the Entrust
+// exception on the child's SPKI), may sign certificates, has a known key algorithm, and whose key verified the child's
+// signature over the child's TBS bytes.
+//@ (ghost sig.ok B8)
+//@ (ghost sig.key Int)
+//@ (ghost sig.tbs Int)
+//@ (ghost sig.sig Int)
+// (trusted frame: the signature check hashes and verifies inside crypto library code; that it writes no memory the
+// caller can see is assumed, not proved)
+//@ (func "(*Certificate).CheckSignature" trusted
+//@   (requires nn (not (isnil c)))
+//@   (ghost-set sig.ok (ite (isnil result) #x01 #x00))
+//@   (ghost-set sig.key (obj c))
+//@   (ghost-set sig.tbs (obj signed))
+//@   (ghost-set sig.sig (obj signature)))
+//@ (func "(*Certificate).CheckSignatureFrom" split-returns
+//@   (requires nn (and (not (isnil c)) (not (isnil parent))))
+//@   (requires errvar (not (isnil (global x509.ErrUnsupportedAlgorithm))))
+//@   (modifies)
+//@   (ghost-havoc sig.ok sig.key sig.tbs sig.sig)
+//@   (ensures ca (=> (isnil result) (or (and (=> (= (field parent Version) 3) (field parent BasicConstraintsValid))
+//@                                             (=> (field parent BasicConstraintsValid) (field parent IsCA)))
+//@                                      (sameBytes (field c RawSubjectPublicKeyInfo) (global x509.entrustBrokenSPKI)))))
+//@   (ensures usage (=> (isnil result) (or (= (field parent KeyUsage) 0) (not (= (bvand (field parent KeyUsage) 32) 0)))))
+//@   (ensures algo (=> (isnil result) (not (= (field parent PublicKeyAlgorithm) 0))))
+//@   (ensures signed (=> (isnil result) (and (= (ghost sig.ok) #x01) (= (ghost sig.key) (obj parent))
+//@                                          (= (ghost sig.tbs) (obj (field c RawTBSCertificate))) (= (ghost sig.sig) (obj (field c Signature)))))))
+//@ (func appendToFreshChain
+//@   (modifies)
+//@   (fresh result)
+//@   (ensures len (and (= (len result) (bvadd (len chain) 1)) (= (cap result) (len result)) (= (off result) 0)))
+//@   (ensures last (= (obj (at result (len chain))) (obj cert)))
+//@   (ensures prefix (forall ((j B64)) (=> (bvult j (len chain)) (= (obj (at result j)) (obj (at chain j)))))))
+// Verify returns chains only for a leaf that has no unhandled critical extension, is within its validity window at the
+// configured time, satisfies its own name constraints, and - when a host name is requested - passed VerifyHostname.
+//@ (ghost host.ok B8)
+//@ (ghost host.cert Int)
+//@ (func "(*Certificate).VerifyHostname" trusted
+//@   (requires nn (not (isnil c)))
+//@   (ghost-set host.ok (ite (isnil result) #x01 #x00))
+//@   (ghost-set host.cert (obj c)))
+// frames of the chain search: nothing that existed before the call is written (the per-call cache is a map)
+//@ (func "(*CertPool).contains" sweep (modifies))
+//@ (func "(*CertPool).findVerifiedParents" sweep
+//@   (modifies)
+//@   (ghost-havoc sig.ok sig.key sig.tbs sig.sig))
+//@ (func "(*Certificate).buildChains" sweep
+//@   (modifies)
+//@   (ghost-havoc sig.ok sig.key sig.tbs sig.sig))
+//@ (func checkChainForKeyUsage sweep (modifies))
+//@ (func "(*Certificate).Verify" sweep split-returns
+//@   (requires nn (not (isnil c)))
+//@   (requires roots (not (isnil (field opts Roots))))
+//@   (requires errvar (not (isnil (global x509.errNotParsed))))
+//@   (loop 1 (invariant any true))
+//@   (loop 2 (invariant any true))
+//@   (loop 3 (invariant any true))
+//@   (ghost-havoc host.ok host.cert sig.ok sig.key sig.tbs sig.sig)
+//@   (ensures critical (=> (isnil err) (= (old (len (field c UnhandledCriticalExtensions))) 0)))
+//@   (ensures window (=> (and (isnil err) (not (time.iszero (field (field opts0 CurrentTime) wall) (field (field opts0 CurrentTime) ext))))
+//@                       (and (not (tbefore (field opts0 CurrentTime) (old (field c NotBefore)))) (not (tafter (field opts0 CurrentTime) (old (field c NotAfter)))))))
+//@   (ensures host (=> (and (isnil err) (bvsgt (len (field opts0 DNSName)) 0)) (and (= (ghost host.ok) #x01) (= (ghost host.cert) (obj c))))))
